@@ -99,13 +99,28 @@ struct Ctl {
     done: [bool; 4],
     sites: Vec<(usize, &'static str)>,
     events: u64,
-    /// observer: called by the harness thread only
+    /// observer (serial reference run of the reader check): the answer of the reader's query right before every write of A
     observe: bool,
+    observed: Vec<String>,
 }
 
 static CTL: Mutex<Option<Ctl>> = Mutex::new(None);
 static CV: Condvar = Condvar::new();
-thread_local! { static ACTOR: Cell<usize> = Cell::new(usize::MAX); }
+thread_local! {
+    static ACTOR: Cell<usize> = Cell::new(usize::MAX);
+    /// RPC handle of the thread that runs A in the observer run
+    static READER_RPC: std::cell::RefCell<Option<BlockFilterRpcImpl>> = std::cell::RefCell::new(None);
+}
+
+/// The reader's query: capacity of every cell under the empty-args always-success lock prefix (all data-hash locks of the
+/// universe) together with the tip it claims to belong to.
+fn reader_query(rpc: &BlockFilterRpcImpl) -> String {
+    let key = SearchKey { script: crate::lcv::sim::chain::universe_lock(3).into(), script_type: crate::service::ScriptType::Lock, filter: None, with_data: None, group_by_transaction: None };
+    match rpc.get_cells_capacity(key) {
+        Ok(c) => format!("{}@{:#x}", u64::from(c.capacity), c.block_hash),
+        Err(e) => format!("error:{:?}", e),
+    }
+}
 
 fn lock_ctl() -> std::sync::MutexGuard<'static, Option<Ctl>> {
     CTL.lock().unwrap_or_else(|e| e.into_inner())
@@ -116,6 +131,14 @@ fn install_hook() {
         let actor = ACTOR.with(|a| a.get());
         if actor == usize::MAX {
             return;
+        }
+        let observe = lock_ctl().as_ref().map(|c| c.observe && actor == c.park_actor).unwrap_or(false);
+        if observe {
+            // the state between two writes of A is a state a reader may legitimately see
+            let ans = READER_RPC.with(|r| r.borrow().as_ref().map(reader_query));
+            if let (Some(c), Some(a)) = (lock_ctl().as_mut(), ans) {
+                c.observed.push(a);
+            }
         }
         let mut g = lock_ctl();
         let c = match g.as_mut() {
@@ -175,10 +198,15 @@ fn exec(piece: &mut Piece, op: &Prepared, shared: &Arc<Shared>) {
     }
 }
 
-fn spawn_op(mut piece: Piece, op: Prepared, shared: Arc<Shared>, seed: u64) -> std::thread::JoinHandle<(Piece, Option<String>)> {
+fn spawn_op(piece: Piece, op: Prepared, shared: Arc<Shared>, seed: u64) -> std::thread::JoinHandle<(Piece, Option<String>)> {
+    spawn_op_with(piece, op, shared, seed, None)
+}
+
+fn spawn_op_with(mut piece: Piece, op: Prepared, shared: Arc<Shared>, seed: u64, observer: Option<BlockFilterRpcImpl>) -> std::thread::JoinHandle<(Piece, Option<String>)> {
     std::thread::spawn(move || {
         let actor = op.actor();
         ACTOR.with(|a| a.set(actor));
+        READER_RPC.with(|r| *r.borrow_mut() = observer);
         crate::verif_hooks::set_rng_seed(Some(seed));
         let r = std::panic::catch_unwind(std::panic::AssertUnwindSafe(|| exec(&mut piece, &op, &shared)));
         let msg = r.err().map(|p| p.downcast_ref::<String>().cloned().or_else(|| p.downcast_ref::<&str>().map(|s| s.to_string())).unwrap_or_else(|| "panic".into()));
@@ -649,6 +677,84 @@ fn consequences_of_serial(run: &mut RunOut, order_ab: bool) -> Result<(), String
     }
 }
 
+fn rpc_of(parts: &Parts) -> BlockFilterRpcImpl {
+    BlockFilterRpcImpl { swc: crate::storage::StorageWithChainData::new(parts.storage.clone(), Arc::clone(&parts.peers), Arc::clone(&parts.pending_txs)) }
+}
+
+/// Reader check for an operation A with several writes (a proof that rolls back and then moves the tip).
+/// `observe = true`: A runs alone and the reader's query is evaluated before each of its writes and after it (the
+/// answers a reader may see). `observe = false`: A parks before its first write, a reader thread loops the query, A is
+/// released and does all its writes while the reader runs. Returns the answers.
+fn reader_run(prep: Prep, seed: u64, observe: bool) -> Result<Vec<String>, Failure> {
+    let Prep { mut sim, a, b: _ } = prep;
+    let shared = Arc::clone(&sim.w.shared);
+    let client = sim.w.client.take().unwrap();
+    let Client { storage, peers, lc, filter, sync, relay, pending_txs } = client;
+    let mut parts = Parts { storage, peers, lc: Some(lc), filter: Some(filter), sync: Some(sync), relay: Some(relay), pending_txs };
+    let aa = a.actor();
+    *lock_ctl() = Some(Ctl { park_actor: aa, park_at: if observe { None } else { Some(0) }, observe, ..Default::default() });
+    install_hook();
+    let quiet = Duration::from_secs(30);
+    let mut answers: Vec<String> = vec![];
+    let r: Result<(), Failure> = (|| {
+        let dead = || Failure::new("deadlock", format!("reader check: no progress for 30 s (A = {})", a.describe()));
+        if observe {
+            let h = spawn_op_with(take_piece(&mut parts, aa), a.clone(), Arc::clone(&shared), seed ^ 0xa, Some(rpc_of(&parts)));
+            wait_until(|c| c.done[aa], quiet, None).map_err(|_| dead())?;
+            let (piece, _) = h.join().map_err(|_| Failure::new("harness/join", "thread join failed"))?;
+            put_back(&mut parts, piece);
+            answers = lock_ctl().as_ref().map(|c| c.observed.clone()).unwrap_or_default();
+            answers.push(reader_query(&rpc_of(&parts)));
+            return Ok(());
+        }
+        let h = spawn_op(take_piece(&mut parts, aa), a.clone(), Arc::clone(&shared), seed ^ 0xa);
+        wait_until(|c| c.parked || c.done[aa], quiet, None).map_err(|_| dead())?;
+        let stop = Arc::new(std::sync::atomic::AtomicBool::new(false));
+        let count = Arc::new(std::sync::atomic::AtomicU64::new(0));
+        let rpc = rpc_of(&parts);
+        let (stop2, count2) = (Arc::clone(&stop), Arc::clone(&count));
+        let reader = std::thread::spawn(move || {
+            let mut seen: Vec<String> = vec![];
+            while !stop2.load(std::sync::atomic::Ordering::SeqCst) {
+                let a = reader_query(&rpc);
+                if seen.last() != Some(&a) && !seen.contains(&a) {
+                    seen.push(a);
+                }
+                count2.fetch_add(1, std::sync::atomic::Ordering::SeqCst);
+            }
+            seen
+        });
+        // let the reader get going, then release A in the middle of the reader's work
+        let t0 = Instant::now();
+        while count.load(std::sync::atomic::Ordering::SeqCst) < 5 && t0.elapsed() < Duration::from_secs(5) {
+            std::thread::yield_now();
+        }
+        {
+            let mut g = lock_ctl();
+            if let Some(c) = g.as_mut() {
+                c.released = true;
+                c.events += 1;
+            }
+            CV.notify_all();
+        }
+        wait_until(|c| c.done[aa], quiet, None).map_err(|_| dead())?;
+        let after = count.load(std::sync::atomic::Ordering::SeqCst);
+        let t1 = Instant::now();
+        while count.load(std::sync::atomic::Ordering::SeqCst) < after + 3 && t1.elapsed() < Duration::from_secs(5) {
+            std::thread::yield_now();
+        }
+        stop.store(true, std::sync::atomic::Ordering::SeqCst);
+        answers = reader.join().map_err(|_| Failure::new("reader/panicked", "the reader thread panicked"))?;
+        let (piece, _) = h.join().map_err(|_| Failure::new("harness/join", "thread join failed"))?;
+        put_back(&mut parts, piece);
+        Ok(())
+    })();
+    crate::verif_hooks::set_write_hook(None);
+    *lock_ctl() = None;
+    r?;
+    Ok(answers)
+}
+
 fn long_fork(p: &[String]) -> bool {
     p.iter().any(|m| m.contains("long fork detected"))
 }
@@ -811,6 +917,31 @@ impl Property for C17 {
             }
             if k >= 1 {
                 obs.nontrivial((da.split('(').next().unwrap_or("").to_string(), db.split('(').next().unwrap_or("").to_string(), site, out.b_done_while_parked));
+            }
+        }
+        // (3) readers: while a proof rolls back and then moves the tip (two writes), a looping get_cells_capacity must only see
+        // (capacity, tip) pairs that exist right before / between / after the writes
+        if ab.writes_a >= 2 && ka.contains("reply-to:GetLastStateProof") {
+            let valid = reader_run(prepare(case).unwrap(), seed, true).map_err(|f| {
+                reset();
+                f
+            })?;
+            let distinct: std::collections::BTreeSet<&String> = valid.iter().collect();
+            if distinct.len() >= 3 {
+                obs.label("reader-check:rollback-and-tip-update-change-the-answer");
+                for trial in 0..12u64 {
+                    let seen = reader_run(prepare(case).unwrap(), seed ^ trial, false).map_err(|f| {
+                        reset();
+                        f
+                    })?;
+                    if let Some(bad) = seen.iter().find(|a| !valid.contains(a)) {
+                        reset();
+                        return Err(Failure::new("reader-saw-a-state-that-never-existed", format!("get_cells_capacity returned {} while A = {} ran; states at A's write boundaries: {:?}", bad, da, valid)));
+                    }
+                    if seen.len() >= 2 {
+                        obs.nontrivial(("reader", seen.len().min(3)));
+                    }
+                }
             }
         }
         reset();
